@@ -23,6 +23,10 @@ def run(pid, argv, want=None):
     rng = random.Random(seed + (1 if pid == 'C02' else 0))
     n = 14 if tier == 'quick' else 300
     cases = SR.usable_cases(rng, n, want=want)
+    # fixed shapes the random generator rarely produces: a multi-client port declared before other provides ports (odd event
+    # names, valued release), requires ports whose semantics alternate in declaration order, an injected port
+    from checks.c11 import fixed_cases
+    cases += fixed_cases() + SR.mixed_semantics_cases(('MSM', 'SMS'))
     io, mo, plans = SR.tie_and_plans(cases)
     wd = legb.Workdir()
     nv = 0
